@@ -70,18 +70,45 @@ def pr1(ctx, R):
         R.check(all(is_ordered_map(d.value) for d in ds), "%s::%s" % (q, target), fi.where(ds[0]),
                 "insertion-ordered mapping", "%s is initialised with `%s`, which does not keep insertion order / uniqueness by key" % (target, unparse(ds[0].value)))
     # first appearance creates, later appearances reuse
+    from .sem import subscript_stores, method_calls_on, leaves, flat_conds, match, W, find
+    from .sym import Sym, show
     goc = prog.func("reader.TdmsReader._get_or_create_object")
-    txt = unparse(goc.node)
-    R.check("self.object_metadata[path] = obj" in txt and ("except KeyError" in txt or "not in self.object_metadata" in txt),
-            "reader.TdmsReader._get_or_create_object::insert on first appearance only", goc.where(),
-            "an object is inserted when first seen and reused afterwards", "object metadata is (re)created for objects already seen")
+    P = ("param", [p for p in goc.params if p != "self"][0])
+    v = Sym(prog, goc, goc.cls).function_value()
+    key = "reader.TdmsReader._get_or_create_object::insert on first appearance only"
+    fresh_unconditional = False
+    fresh_guarded = False
+    for conds, leaf in leaves(v):
+        parts = [leaf] if leaf[0] != "try" else [leaf[1], leaf[3]]
+        for part in parts:
+            if part[0] == "new":
+                absent = leaf[0] == "try" and part is leaf[3] and leaf[2] == "KeyError" and match(("sub", W(), P), leaf[1]) is not None
+                for c in flat_conds(conds):
+                    if match(("cmp", "is", ("method", "get", W(), (P,), ()), ("const", None)), c) is not None or match(("cmp", "not in", P, W()), c) is not None:
+                        absent = True
+                fresh_guarded = fresh_guarded or absent
+                fresh_unconditional = fresh_unconditional or not absent
+    stores = [x for x in subscript_stores(prog, goc) if x[2] == P and x[3][0] == "new"]
+    stored_when_absent = bool(stores) and all(any(g == ("except", "KeyError") or match(("cmp", "is", ("method", "get", W(), (P,), ()), ("const", None)), g) is not None
+                                                  or match(("cmp", "not in", P, W()), g) is not None for g in x[4]) for x in stores)
+    if fresh_unconditional or (stores and not stored_when_absent):
+        R.violation(key, goc.where(), "object metadata is (re)created for objects already seen: `%s`" % show(v)[:160])
+    elif fresh_guarded and stored_when_absent:
+        R.ok(key, goc.where(), "an object is inserted when first seen and reused afterwards")
+    else:
+        R.undecided(key, goc.where(), "form `%s` not understood" % show(v)[:160])
     # properties: plain item assignment = last value wins
     up = prog.func("reader.TdmsReader._update_object_properties")
-    stores = [n for n in walk_body(up.node) if isinstance(n, ast.Assign) and any(isinstance(t, ast.Subscript) and dotted(t.value) and dotted(t.value).endswith(".properties") for t in n.targets)]
-    guarded = any(isinstance(n, ast.If) and (" not in " in unparse(n.test) or " in " in unparse(n.test)) and "properties" in unparse(n.test) for n in walk_body(up.node))
-    firstwins = any(isinstance(c, ast.Call) and isinstance(c.func, ast.Attribute) and c.func.attr == "setdefault" for c in walk_body(up.node))
-    R.check(bool(stores) and not guarded and not firstwins, "reader.TdmsReader._update_object_properties::last value wins", up.where(),
-            "properties[prop] = val unconditionally, in file order", "a property keeps its first value (guarded store / setdefault) instead of the last one written")
+    pst = [x for x in subscript_stores(prog, up) if isinstance(x[1], tuple) and x[1][0] == "attr" and x[1][2] == "properties"]
+    guarded = [x for x in pst if any(find(g, ("cmp", W("op", lambda o: o in ("in", "not in")), x[2], W())) for g in x[4])]
+    firstwins = [c for c in method_calls_on(prog, up, ("setdefault",)) if isinstance(c[1], tuple) and c[1][0] == "attr" and c[1][2] == "properties"]
+    key = "reader.TdmsReader._update_object_properties::last value wins"
+    if guarded or firstwins:
+        R.violation(key, up.where(), "a property keeps its first value (guarded store / setdefault) instead of the last one written")
+    elif pst:
+        R.ok(key, up.where(), "properties[prop] = val unconditionally, in file order")
+    else:
+        raise AnchorMissing("reader.TdmsReader._update_object_properties: store into <object>.properties")
     # both updates happen once per segment, in file order
     rm = prog.func("reader.TdmsReader.read_metadata")
     cfg = ctx.cfg(rm)
